@@ -132,8 +132,10 @@ def run_job_A(h: H, cube, tier, seed, workdir, suppress="", verbose=False) -> Jo
     env = _base_env(cube, seed, "sym", {"VF_JOURNAL": jpath})
     if suppress:
         env["VF_SUPPRESS"] = suppress
-    cmd = [PY, "-m", "vf.chlaunch", "check", "--report_all", "--analysis_kind", "PEP316",
-           "--per_condition_timeout", str(T), "--per_path_timeout", str(h.path_timeout)]
+    cmd = [PY, "-m", "vf.chlaunch", "check", "--report_all",
+           # sqltrie's private in-memory databases (SQLite-backed index cubes); vf.env's containment guard rejects on-disk databases
+           "--unblock", "sqlite3.connect", "sqlite3.connect/handle",
+           "--analysis_kind", "PEP316", "--per_condition_timeout", str(T), "--per_path_timeout", str(h.path_timeout)]
     if verbose:
         cmd.append("-v")
     cmd.append(f"{file}:{line}")
